@@ -488,6 +488,54 @@ func genTree(r *hx.Rng, dir string, o imgOpts) (*tree, error) {
 	if o.unsupported == "ea_inode" {
 		xa("f06_"+strconv.Itoa(bs), "user.huge", r.Bytes(bs+500)) // goes to an EA inode
 	}
+	// --- inode kind x xattr placement: every kind (file, directory, fast symlink, slow symlink) with attributes
+	// in the inode only, in an external block only, and in both. `big` never fits the in-inode space of a
+	// 256/512-byte inode; with 128-byte inodes everything goes to the external block (which i_blocks counts:
+	// a fast symlink then has i_blocks != 0 while its target still sits in i_block).
+	if o.unsupported == "inline_data" {
+		// debugfs ea_set corrupts inodes that keep their data in the system.data attribute (e2fsck then finds a bad
+		// attribute block); the library refuses these images at open anyway
+		return t, nil
+	}
+	big := func() []byte { return r.Bytes(bs/2 + r.Intn(bs/8)) }
+	small := func() []byte { return r.Bytes(1 + r.Intn(24)) }
+	linkName := func(i int) string {
+		for p, n := range t.nodes {
+			if n.kind == kSymlink && strings.HasPrefix(p, fmt.Sprintf("l%02d_", i)) {
+				return p
+			}
+		}
+		return ""
+	}
+	place := func(p string, withBig, withSmall bool) {
+		if p == "" || t.nodes[p] == nil {
+			return
+		}
+		ns := "user."
+		if t.nodes[p].kind == kSymlink {
+			ns = "trusted." // the kernel allows no user.* attributes on symbolic links
+		}
+		if withBig {
+			xa(p, ns+"big_"+genName(r, 1, 12), big())
+		}
+		if withSmall {
+			xa(p, ns+"s_"+genName(r, 1, 12), small())
+		}
+	}
+	place(linkName(0), true, false)  // fast symlink (1 byte), external block only
+	place(linkName(1), false, true)  // fast symlink, in-inode only (block with 128-byte inodes)
+	place(linkName(3), true, true)   // fast symlink at the 59-byte boundary, both
+	place(linkName(4), true, false)  // slow symlink (60 bytes), external block only
+	place(linkName(6), false, true)  // slow symlink (255 bytes), in-inode only
+	place(linkName(8), true, true)   // slow symlink of blocksize-1 bytes, both
+	place("longnames", true, false)  // directory, external block only
+	place("fill", true, true)        // directory (linear, several blocks), both
+	place("big", false, true)        // hash-indexed directory, in-inode only
+	if o.unsupported != "ea_inode" { // (f06 carries the EA-inode value there)
+		place("f06_"+strconv.Itoa(bs), true, false) // file, external block only
+	}
+	place("sp_mid", true, true)    // sparse file, both
+	place("fragfile", true, false) // file written by debugfs, many extents, external block only
 	return t, nil
 }
 
